@@ -133,6 +133,7 @@ func diffRecords(a, b *heightRecord) string {
 
 type replicaPlan struct {
 	fresh      bool // rebuilt from genesis by replaying every block of the primary's chain (prelude included)
+	pipelined  bool
 	restartAt  map[int]bool
 	proofType  string
 	maxProcs   int
@@ -195,6 +196,7 @@ func c01Property(t *rapid.T) {
 
 	nRep := rapid.IntRange(2, 3).Draw(t, "replicas")
 	restarts := 0
+	pipelinedBursts := 0
 	defer runtime.GOMAXPROCS(runtime.GOMAXPROCS(0))
 	for ri := 0; ri < nRep; ri++ {
 		plan := &replicaPlan{restartAt: map[int]bool{}, viewBefore: map[int]bool{}}
@@ -202,6 +204,7 @@ func c01Property(t *rapid.T) {
 		plan.proofType = rapid.SampledFrom([]string{"serial", "parallel"}).Draw(t, "proofType")
 		plan.maxProcs = rapid.SampledFrom([]int{1, 4, 16}).Draw(t, "gomaxprocs")
 		plan.cacheSize = rapid.SampledFrom([]int{0, 0, 1, 3}).Draw(t, "cacheSize")
+		plan.pipelined = rapid.IntRange(0, 2).Draw(t, "pipelined") == 0
 		for bi := range blocks {
 			if rapid.IntRange(0, 4).Draw(t, "restart") == 0 {
 				plan.restartAt[bi] = true
@@ -247,7 +250,11 @@ func c01Property(t *rapid.T) {
 		}
 		func() {
 			defer rw.N.Destroy()
+			skipUntil := 0
 			for bi, b := range blocks {
+				if skipUntil > bi {
+					continue
+				}
 				if plan.restartAt[bi] {
 					rw.N.Reopen()
 				}
@@ -260,20 +267,44 @@ func c01Property(t *rapid.T) {
 					vtxs = append(vtxs, sim.BVMTx(sim.KeyFor("viewer"), 0, 1, constant.StoreContractAddr, "Set", pb.String("view"), pb.String("x")))
 					rw.N.View(vtxs...)
 				}
+				if skipUntil > bi {
+					continue // already executed as part of a pipelined burst
+				}
 				h := rw.N.Height()
-				if _, err := rw.N.ExecBlock(b.event(h + 1)); err != nil {
+				// a burst: this block and the following ones (up to the next restart / read-only run) are handed to the
+				// executor at once, so that signature checks of later blocks overlap with the execution of earlier ones
+				burst := 1
+				if plan.pipelined {
+					for burst < 4 && bi+burst < len(blocks) && !plan.restartAt[bi+burst] && !plan.viewBefore[bi+burst] {
+						burst++
+					}
+				}
+				if burst > 1 {
+					var evs []*pb.CommitEvent
+					for k := 0; k < burst; k++ {
+						evs = append(evs, blocks[bi+k].event(h+1+uint64(k)))
+					}
+					if err := rw.N.ExecBlocksPipelined(evs...); err != nil {
+						f.fail("replica %d: pipelined blocks %d..%d not executed: %v", ri, h+1, h+uint64(burst), err)
+					}
+					pipelinedBursts++
+					skipUntil = bi + burst
+				} else if _, err := rw.N.ExecBlock(b.event(h + 1)); err != nil {
 					f.fail("replica %d: block %d not executed: %v", ri, h+1, err)
 				}
-				var txs []pb.Transaction
-				for _, s := range b.txs {
-					txs = append(txs, s.tx)
-				}
-				hr, err := recordHeight(rw.N, h+1, txs)
-				if err != nil {
-					f.fail("replica %d: cannot read back block %d: %v", ri, h+1, err)
-				}
-				if d := diffRecords(primary[bi], hr); d != "" {
-					f.fail("replica %d (proof=%s gomaxprocs=%d cache=%d restarted-before-this-block=%v fresh=%v) differs from the primary at block %d: %s", ri, plan.proofType, plan.maxProcs, plan.cacheSize, plan.restartAt[bi], plan.fresh, h+1, d)
+				for k := 0; k < burst; k++ {
+					var txs []pb.Transaction
+					for _, s := range blocks[bi+k].txs {
+						txs = append(txs, s.tx)
+					}
+					hh := h + 1 + uint64(k)
+					hr, err := recordHeight(rw.N, hh, txs)
+					if err != nil {
+						f.fail("replica %d: cannot read back block %d: %v", ri, hh, err)
+					}
+					if d := diffRecords(primary[bi+k], hr); d != "" {
+						f.fail("replica %d (proof=%s gomaxprocs=%d cache=%d restarted-before-this-block=%v fresh=%v pipelined=%v) differs from the primary at block %d: %s", ri, plan.proofType, plan.maxProcs, plan.cacheSize, plan.restartAt[bi+k], plan.fresh, burst > 1, hh, d)
+					}
 				}
 			}
 			dump := sim.DumpState(rw.N.StateDB)
@@ -293,6 +324,9 @@ func c01Property(t *rapid.T) {
 	}
 	if restarts > 0 {
 		classes = append(classes, "replica-restart")
+	}
+	if pipelinedBursts > 0 {
+		classes = append(classes, "replica-pipelined-bursts")
 	}
 	nt := ""
 	if (groupTxs >= 2 || lifecycle >= 2) && restarts > 0 {
